@@ -90,7 +90,7 @@ def check_text(text, reg, job, tree_shaped):
 
 def check_case(inputs, cmps, job, registry):
     reg, text = real.run_library(inputs, registry, cmps, job)
-    tree_shaped = common.is_tree(reg)
+    tree_shaped = common.is_tree(reg, root_backrefs=True)
     if job["layout"] == "nested" and not tree_shaped:
         return None, "nested-non-tree"
     hit = check_text(text, reg, job, tree_shaped)
